@@ -85,3 +85,20 @@ Theorem C02_positions_final : forall st s,
   snd r = st.
 Proof. exact FinalTree.final_stream_facts. Qed.
 Print Assumptions C02_positions_final.
+
+(* ... and the text-less line mode (final_source = true, columns = false), ReplaceSource included:
+   with this the property is a theorem in all four modes for every tree over Raw* / Original /
+   SourceMapSource (consistent map) / Concat / Replace *)
+From RS Require Proofs.LinesTree.
+Theorem C02_positions_final_lines : forall st s,
+  RStreamTree.rshape s = true -> treeA s = true -> rsmall s = true ->
+  let r := stream st s (mkOpts false true) in
+  positions_of_text (source s) (chunks_of (fst (fst r))) = true /\
+  snd (fst r) = advance 1 0 (source s) /\
+  sorted_by pos_le (chunk_mappings (fst (fst r))) = true /\
+  snd r = st.
+Proof.
+  intros st s H1 H2 H3. destruct (LinesTree.final_stream_facts_lines st s H1 H2 H3) as (_ & A & B & C & D & _).
+  exact (conj A (conj B (conj C D))).
+Qed.
+Print Assumptions C02_positions_final_lines.
